@@ -304,7 +304,8 @@ def cases(tier, seed):
         split = (tier == 'quick' and g == 0) or (tier != 'quick' and rnd.random() < 0.12)
         if split:
             # each atom next to the stretched bond (CB, the first side-chain atom beyond it) gets to be the first atom of the file
-            pres = [('permute', {'pstyle': 'rotate', 'rotate_by': 4}), ('permute', {'pstyle': 'rotate', 'rotate_by': 5}), ('hashseed', {})] + \
+            pres = [('permute', {'pstyle': 'rotate', 'rotate_by': 4}), ('permute', {'pstyle': 'rotate', 'rotate_by': 5}), ('hashseed', {}),
+                    ('reverse-file', {})] + \
                    ([('rigid', {})] if tier != 'quick' else [])
             options = rnd.choice([['-ff', 'martini3001', '-elastic', '-p', 'backbone'], ['-ff', 'martini22', '-noscfix']]) if tier != 'quick' \
                 else ['-ff', 'martini3001', '-elastic', '-p', 'backbone']
@@ -320,16 +321,43 @@ def split_first_residue(src, dst):
     boundary in a simulation frame: intra-residue bonds of that residue are far longer than any distance criterion, the residue
     holds together by its atom names only."""
     keep = {'N', 'CA', 'C', 'O', 'OXT', 'CB', 'H', 'HN', 'H1', 'H2', 'H3', 'HA', 'HA1', 'HA2', 'HA3', 'HB1', 'HB2', 'HB3', 'HB'}
-    first = None
+    first = second = None
     out = []
     with open(src) as f:
         for l in f:
             if l.startswith(('ATOM', 'HETATM')):
                 key = (l[21], l[22:27])
                 first = first or key
+                if key != first and second is None:
+                    second = key
                 if key == first and l[12:16].strip() not in keep:
                     l = l[:46] + '%8.3f' % (float(l[46:54]) + 40.0) + l[54:]
+                elif key == second and l[12:16].strip() not in keep:
+                    # the side chain of the second residue comes in two alternate locations, A listed first (raw crystal
+                    # structures do): conformation A is the one to use, wherever its records stand in the file
+                    out.append(l[:16] + 'A' + l[17:])
+                    l = l[:16] + 'B' + l[17:30] + '%8.3f' % (float(l[30:38]) + 1.4) + l[38:]
             out.append(l)
+    with open(dst, 'w') as f:
+        f.writelines(out)
+
+
+def reverse_residues_in_file(src, dst):
+    """The same file with the atom records of every residue listed in reverse order."""
+    out, block, cur = [], [], None
+    with open(src) as f:
+        for l in f:
+            if l.startswith(('ATOM', 'HETATM')):
+                key = (l[21], l[22:27])
+                if key != cur:
+                    out += reversed(block)
+                    block, cur = [], key
+                block.append(l)
+            else:
+                out += reversed(block)
+                block, cur = [], None
+                out.append(l)
+    out += reversed(block)
     with open(dst, 'w') as f:
         f.writelines(out)
 
@@ -382,6 +410,11 @@ def run_case(params):
                             l = l[:30] + ''.join('%8.3f' % v for v in xyz) + l[54:]
                         g.write(l)
                 r2 = run_cli(moved_pdb, params['options'], 'reference', {}, params['pseed'], hs, d)
+            elif kind == 'reverse-file':
+                os.makedirs(d, exist_ok=True)
+                rev_pdb = os.path.join(d, 'reversed.pdb')
+                reverse_residues_in_file(pdb, rev_pdb)
+                r2 = run_cli(rev_pdb, params['options'], 'reference', {}, params['pseed'], hs, d)
             else:
                 r2 = run_cli(pdb, params['options'], kind, extra, params['pseed'], hs, d)
             desc = {'input': params['pdb'], 'options': params['options'], 'presentation': [kind, extra], 'pseed': params['pseed'],
@@ -393,6 +426,8 @@ def run_case(params):
                 continue
             other = load_outputs(d)
             record = (other['presentation']['records'] or [{}])[0]
+            if kind == 'reverse-file':
+                record = {'order_changed': True}
             if kind == 'translate-file':
                 record = {'moved': True, 'R': [[1, 0, 0], [0, 1, 0], [0, 0, 1]], 't': [x / 10.0 for x in shift]}
             b.hits += 1
